@@ -18,6 +18,19 @@ for l in p.stdout.split("\n"):
     if e.get("Action") == "pass" and e.get("Test"):
         passed.add(e["Package"] + "::" + e["Test"])
 missing = sorted(stable - passed)
+# upstream flakiness (e.g. obiutils TestSetString prints a Go map in iteration order and fails about one
+# run in three on the untouched tree): a test counts as passing if it passes in one of 5 more attempts
+for attempt in range(5):
+    if not missing:
+        break
+    for m in list(missing):
+        pkg, test = m.split("::")
+        q = subprocess.run(["go", "test", "-vet=off", "-count=1", "-run", "^" + test.split("/")[0] + "$", pkg],
+                           cwd=repo, env=env, stdout=subprocess.PIPE, stderr=subprocess.DEVNULL, text=True)
+        if q.returncode == 0:
+            print("  flaky upstream test passed on retry:", m)
+            passed.add(m)
+    missing = sorted(stable - passed)
 print(f"baseline: {len(stable & passed)}/{len(stable)} stable tests pass (guard off)")
 for m in missing:
     print("  NOT PASSING:", m)
